@@ -1,0 +1,17 @@
+//go:build verif
+// +build verif
+
+package tars
+
+import "github.com/TarsCloud/TarsGo/tars/protocol/res/statf"
+
+// VerifStatCollect folds the reports through StatFHelper.collectMsg into fresh maps, as the report loop does between two ticks.
+func VerifStatCollect(infos []StatInfo) (map[statf.StatMicMsgHead]statf.StatMicMsgBody, map[statf.StatMicMsgHead]int) {
+	s := &StatFHelper{}
+	m := make(map[statf.StatMicMsgHead]statf.StatMicMsgBody)
+	c := make(map[statf.StatMicMsgHead]int)
+	for _, i := range infos {
+		s.collectMsg(i, m, c)
+	}
+	return m, c
+}
